@@ -7,18 +7,49 @@ from specs.retry import *
 from specs.acks import *
 
 
+@spec
+def in_range(self: Ref['mqtt.client.pubsubs.MQTTProtocol'], r: Ref['obj'], lo: int, hi: int) -> bool:
+    """r is the queue item at one of the positions lo..hi-1"""
+    return is_int(r.q_pos) and lo <= r.q_pos and r.q_pos < hi and dq_at(Q(self), r.q_pos) == r
+
+
+@spec
+def sent_in_order(self: Ref['mqtt.client.pubsubs.MQTTProtocol'], lo: int, hi: int, n0: int, dup: bool) -> bool:
+    """two-state: the queue items at positions lo..hi-1 have been transmitted (one write each: the length clause next
+    to every use): each holds the bytes it held before with the DUP flag as given; no other request was touched.
+    (That the k-th packet written is the k-th item's is NOT stated: z3 cannot carry seq.nth facts through the loop; it
+    rests on the per-iteration contract of _retryPublish - out == old(out) + [request.encoded] - and the popleft order.)"""
+    return (forall(lambda j: implies(lo <= j and j < hi,
+                                     is_bool(dq_at(Q(self), j).dup) and dq_at(Q(self), j).dup == dup
+                                     and is_bytes(dq_at(Q(self), j).encoded)
+                                     and implies(not dup, as_bytes(dq_at(Q(self), j).encoded) == old(as_bytes(dq_at(Q(self), j).encoded)))
+                                     and implies(dup, dup_set(as_bytes(dq_at(Q(self), j).encoded), old(as_bytes(dq_at(Q(self), j).encoded))))))
+            and forall(lambda x: implies(not in_range(self, obj_at(x), lo, hi), unchanged(obj_at(x).encoded, obj_at(x).dup))))
+
+
+@spec
+def first_tx(self: Ref['mqtt.client.pubsubs.MQTTProtocol'], lo: int) -> bool:
+    """two-state: whatever left the queue since position lo went out as a FIRST transmission: DUP clear in the object,
+    stored bytes exactly as queued (C08: DUP=0 the first time)"""
+    return (forall(lambda j: implies(lo <= j and j < dq_head(Q(self)), is_bool(dq_at(Q(self), j).dup) and not dq_at(Q(self), j).dup))
+            and forall(lambda j: implies(lo <= j and j < dq_head(Q(self)),
+                                         as_bytes(dq_at(Q(self), j).encoded) == old(as_bytes(dq_at(Q(self), j).encoded)))))
+
+
 @contract('mqtt.client.pubsubs.MQTTProtocol._refillPublish', props=['C10', 'C05', 'C12', 'C13'])
 def _(self: Ref['mqtt.client.pubsubs.MQTTProtocol'], dup: bool):
     requires(is_obj(self.addr))
     requires(inv(self) and is_list_bytes(self.transport.tr_out) and isa(self._pingReq, 'mqtt.pdu.PINGREQ'))
     h0 = dq_head(Q(self))
     n0 = len(W(self))
+    nout = len(out(self))
     modifies(all_but(KEEP_REFILL))
     ensures(inv(self) and is_list_bytes(self.transport.tr_out))
     # the queue only loses a prefix; one write per released message
     ensures(dq_tail(Q(self)) == old(dq_tail(Q(self))) and h0 <= dq_head(Q(self)))
     ensures(forall(lambda j: implies(dq_head(Q(self)) <= j and j < dq_tail(Q(self)), dq_at(Q(self), j) == old(dq_at(Q(self), j)))))
     ensures(len(out(self)) == len(old(out(self))) + (dq_head(Q(self)) - h0))
+    ensures(sent_in_order(self, h0, dq_head(Q(self)), nout, dup))
     # window bound: never more in flight than max(what was in flight, the window in force)
     ensures(len(W(self)) <= n0 or len(W(self)) <= self._window)
     # nothing stranded: the queue is empty, or its head needs a slot and there is none
@@ -47,6 +78,7 @@ def _():
     invariant(dq_tail(Q(self)) == old(dq_tail(Q(self))) and old(dq_head(Q(self))) <= dq_head(Q(self)))
     invariant(forall(lambda j: implies(dq_head(Q(self)) <= j and j < dq_tail(Q(self)), dq_at(Q(self), j) == old(dq_at(Q(self), j)))))
     invariant(len(out(self)) == len(old(out(self))) + (dq_head(Q(self)) - old(dq_head(Q(self)))))
+    invariant(sent_in_order(self, old(dq_head(Q(self))), dq_head(Q(self)), len(old(out(self))), dup))
     invariant(len(W(self)) <= old(len(W(self))) or len(W(self)) <= self._window)
     invariant(implies(old(alarms_set(self)), alarms_set(self)))
     invariant(same_containers(self))
@@ -68,6 +100,7 @@ def _(self: Ref['mqtt.client.pubsubs.MQTTProtocol'], response: Ref['mqtt.pdu.PUB
     hit = contains(W(self), id)
     req = W(self)[id]
     al = as_ref(W(self)[id].alarm)
+    qh = dq_head(Q(self))
     modifies(all_but(KEEP))
     ensures(live(self))
     ensures(ping_untouched_by_handler(self))
@@ -78,6 +111,7 @@ def _(self: Ref['mqtt.client.pubsubs.MQTTProtocol'], response: Ref['mqtt.pdu.PUB
     ensures(implies(not hit, out(self) == old(out(self)) and no_new_fired()))
     ensures(len(W(self)) <= old(len(W(self))) or len(W(self)) <= self._window)
     ensures(dq_len(Q(self)) == 0 or not hit or (is_int(dq_at(Q(self), dq_head(Q(self))).msgId) and len(W(self)) >= self._window))
+    ensures(first_tx(self, qh))
 
 
 @contract('mqtt.client.pubsubs.MQTTProtocol.handlePUBACK', name='foreign-id', callsite=False, props=['C05', 'C16'])
@@ -108,6 +142,7 @@ def _(self: Ref['mqtt.client.pubsubs.MQTTProtocol'], response: Ref['mqtt.pdu.PUB
     # the exchange moves from the publish window to the release window, carrying the unfired Deferred
     ensures(implies(hit, not contains(W(self), id) and contains(R(self), id)
                     and R(self)[id].deferred == old(req.deferred) and not R(self)[id].deferred.d_fired
+                    and R(self)[id].g_base == sPUBREL(id)
                     and is_int(req.alarm.t_status) and req.alarm.t_status == 1))
 
 
@@ -130,6 +165,7 @@ def _(self: Ref['mqtt.client.pubsubs.MQTTProtocol'], response: Ref['mqtt.pdu.PUB
     hit = is_int(response.msgId) and contains(R(self), id)
     rep = R(self)[id]
     al = as_ref(R(self)[id].alarm)
+    qh = dq_head(Q(self))
     modifies(all_but(KEEP))
     ensures(live(self))
     ensures(ping_untouched_by_handler(self))
@@ -139,6 +175,7 @@ def _(self: Ref['mqtt.client.pubsubs.MQTTProtocol'], response: Ref['mqtt.pdu.PUB
     ensures(len(W(self)) <= old(len(W(self))) or len(W(self)) <= self._window)
     # the slot freed in the release window lets held-back messages go: nothing that could be sent is left waiting
     ensures(dq_len(Q(self)) == 0 or not hit or (is_int(dq_at(Q(self), dq_head(Q(self))).msgId) and len(W(self)) >= self._window))
+    ensures(first_tx(self, qh))
 
 
 @contract('mqtt.client.pubsubs.MQTTProtocol.handlePUBCOMP', name='foreign-id', callsite=False, props=['C05', 'C09', 'C16'])
@@ -154,3 +191,8 @@ def _(self: Ref['mqtt.client.pubsubs.MQTTProtocol'], response: Ref['mqtt.pdu.PUB
 @ghost_at('mqtt.client.pubsubs.MQTTProtocol.handlePUBREC', after='reply.deferred = request.deferred')
 def _():
     gset(reply.deferred.d_owner, reply)
+
+
+@ghost_at('mqtt.client.pubsubs.MQTTProtocol.handlePUBREC', after='reply.encode()')
+def _():
+    gset(reply.g_base, as_bytes(reply.encoded))
